@@ -193,7 +193,9 @@ class Resolver:
         if isinstance(tg, ast.Name):
             old = env.get(tg.id, UNK)
             none = prim("none")
-            if old == none and t not in (UNK, none):
+            if old[0] == "funcs" and t[0] == "funcs":
+                env[tg.id] = ("funcs", list(old[1]) + [q for q in t[1] if q not in old[1]])
+            elif old == none and t not in (UNK, none):
                 env[tg.id] = t if t[0] == "opt" else ("opt", t)
             elif t == none and old not in (UNK, none):
                 env[tg.id] = old if old[0] == "opt" else ("opt", old)
@@ -257,6 +259,10 @@ class Resolver:
                 return prim("int")
             if bt == prim("str"):
                 return prim("str")
+            if bt == prim("match"):
+                if isinstance(e.slice, ast.Constant) and e.slice.value == 0:
+                    return prim("strlike")
+                return ("opt", prim("strlike"))
             return UNK
         if isinstance(e, ast.BoolOp):
             ts = [self.type_of(v, fi, env) for v in e.values]
@@ -267,7 +273,10 @@ class Resolver:
             return UNK
         if isinstance(e, ast.IfExp):
             t = self.type_of(e.body, fi, env)
-            return t if t != UNK else self.type_of(e.orelse, fi, env)
+            t2 = self.type_of(e.orelse, fi, env)
+            if t[0] == "funcs" and t2[0] == "funcs":
+                return ("funcs", list(t[1]) + [q for q in t2[1] if q not in t[1]])
+            return t if t != UNK else t2
         if isinstance(e, (ast.List, ast.ListComp)):
             if isinstance(e, ast.List) and e.elts:
                 return ("list", self.type_of(e.elts[0], fi, env))
